@@ -241,6 +241,17 @@ vbi_pfc_demux_feed		(vbi_pfc_demux *	dx,
 			goto desynced;
 
 		if (pgno != dx->block.pgno) {
+			if ((pgno ^ dx->block.pgno) & 0xF00) {
+				int c11;
+
+				/* Header of another magazine. In parallel
+				   transmission mode (C11 = 0) it does not
+				   terminate our page. */
+				c11 = vbi_unham8 (buffer[9]);
+				if (c11 >= 0 && 0 == (c11 & 1))
+					return TRUE;
+			}
+
 			if (dx->packet <= dx->n_packets) {
 				/* Our page was terminated early, packets
 				   are missing. Discard the current block. */
